@@ -324,3 +324,33 @@ PROPS["C12"] = _serve("C12", {
     "handle_put": "refused Put drains its content so the stream stays in step",
 }, r"\(C12|\(C11/C12", ["ciborium internals (allocation on hostile CBOR inside a <= 1 MiB frame) - by contract; behaviour under a real rlimit is exercised by the twin only", "'later valid requests get the same replies as in a fresh session' is a two-run statement: decided only as 'the stream position after an error reply is the frame boundary' (handle_put drain clause + read_frame consumption)"],
     ["read_magic", "read_frame", "write_frame", "serve", "handle_put"], {"handle_put": _NOT_C12})
+
+
+# ---- C09: one-way delivery under a kill ----
+ONEWAY_TRUST = COMMON_TRUST + [
+    "ghost one-way world (units/lib/oneway_world.rs, ASSUMED): a kill keeps what was written (process kill, not power loss); copy / create / streaming are NON-atomic and allowed only onto *.copia-tmp; rename is atomic and demands a WHOLE source (filled by a successful copy or by a remote cat that reported success); every effect is logged in order - kill points are the prefixes of the log",
+    "dir_sync::transfer_file_from_remote BY CONTRACT (tokio process + async pipes): writes only its local_path argument, Ok only if ssh/cat reported success; validated on the real binary by the crash oracle (pull: every kill point; a remote end that fails mid-stream)",
+    "meta::set_local_mtime by contract (open without create/truncate + set_modified): changes no byte",
+    "R4: async fn => fn, `.await` erased (tokio::fs::copy / rename are the std calls run on a blocking thread); R11: Box<dyn Error> => VErr; R3: format! diagnostics => vfmt()",
+    "std::path algebra (ASSUMED): a path is its byte string; OsString::push appends",
+]
+PROPS["C09"] = dict(
+    level="proof",
+    units=[dict(template="units/oneway.rs", slice=["*"])],
+    twins=[dict(name="oneway_crashes", repo_fn="src/bin/copia/transfer.rs transfer_file_to_remote (push) + incremental.rs run_local/run_remote", quick=3, thorough=120, needs_cli=True,
+                contract="`copia sync -r` in all three directions on the real binary, killed right before EVERY one of its file-system / pipe write calls (ptrace supervisor; the ssh stand-in keeps running after its sender died): live destination paths hold complete old or complete new bytes, files outside the plan are unchanged, the re-run exits 0 and equals an uninterrupted run; plus a remote end that fails mid-stream",
+                bounded="PUSH is decided only here: the deciding step is the remote shell command `cat > tmp && [ size ] && mv`, which is not Rust code and has no contract. Bound: ONE tree (5 files, 0 B .. 700 000 B = 3 transfer chunks, one pre-existing older version, one unrelated file), -j 1, every kill point of that run (quick: every point up to 40 then every 3rd; thorough: all), remote = local sh through an ssh stand-in")],
+    fallback_searches=["oneway"],
+    clauses={
+        "tmp_path": "result == dst ++ '.copia-tmp': a reserved staging name, different from dst",
+        "deliver_local": "for every outcome (Ok, Err, and by the effect-log clause every kill point): the only effects are non-atomic writes on dst.copia-tmp, ONE rename dst.copia-tmp -> dst, a touch of dst; dst afterwards holds its old bytes or exactly the source's bytes; no other path changes; Ok ==> dst == source. The rename's precondition (WHOLE staging file) holds only after vfs_copy returned Ok",
+        "deliver_pull": "the same with the complete remote file as the only new content; the rename happens only after transfer_file_from_remote returned Ok (its contract: Ok only if the remote cat reported success)",
+        "create_local_dirs": "changes no file",
+        "push (bounded)": "decided by the crash oracle on the real binary only",
+    },
+    trusted=ONEWAY_TRUST,
+    assumptions=["process kill, not power loss (no fsync is demanded)", "source files do not change during the run", "destination names ending in .copia-tmp are reserved"],
+    not_decided=["run_local / run_remote orchestration (tokio::spawn, Semaphore, join_handles, the delete phase) is not under contract: 'files outside the plan are unchanged' is proved per delivery (frame clause) and exercised end-to-end by the crash oracle only",
+                 "push: no contract can state what the remote shell does; bounded fault enumeration stands in (H13 was found and fixed there)",
+                 "'running the same command again yields the uninterrupted result' is a two-run statement: crash oracle only"],
+)
